@@ -442,6 +442,37 @@ def run(ck):
             scale_event("construct_with_rejections:%s/chain" % fam_name, len(order) + rej[0], len(c_stc.calls), res, K=2, slack=16)
         else:
             scale_event("construct_with_rejections:%s/chain" % fam_name, 1, 0, res)
+    # REJECTING an application on top of a big shared DAG costs no more than type-checking it: the error (and its
+    # message) must not walk the tree expansion of the operands (2^40 nodes here)
+    for fam_name, bad in (("bool", "equals_on_bool_terms"), ("bool", "plus_on_bool_terms"), ("int", "and_on_int_terms"), ("bv", "bvadd_other_width")):
+        pysmt.environment.reset_env()
+        env = pysmt.environment.get_env()
+        c_stc = Counter(env.stc)
+        m = env.formula_manager
+        leaf, un, bi = families(env)[fam_name]
+        cur = leaf(0)
+        for k in range(40):
+            cur = bi(un(cur), cur)
+        order, idx, kids = real_dag(cur)
+        outcome = []
+
+        def reject():
+            try:
+                if bad == "equals_on_bool_terms":
+                    m.Equals(cur, m.Not(cur))
+                elif bad == "plus_on_bool_terms":
+                    m.Plus(cur, cur)
+                elif bad == "and_on_int_terms":
+                    m.And(m.LE(cur, cur), cur)
+                else:
+                    m.BVAdd(cur, m.BVZExt(cur, 1))
+                outcome.append("accepted")
+            except Exception as ex:
+                outcome.append(type(ex).__name__)
+        res = timed(reject, 20)
+        if res == "ok" and outcome and outcome[0] == "accepted":
+            res = "ill_typed_application_accepted"
+        scale_event("reject_over_diamond:%s/%s" % (fam_name, bad), len(order) + 4, len(c_stc.calls), res, K=2, slack=16)
     # re-parsing a deep let-DAG of Real arithmetic written with integer literals (the parser retries such
     # applications after a type error)
     pysmt.environment.reset_env()
